@@ -1,1 +1,194 @@
-From CssV Require Import Base Tokenizer CodecPyLib Gen.CodecFns Codec CodecConcrete CodecFacts.
+(* C14 -- CSS codec: detection priority, inverse, chunking invariance.
+   Property theorems only; proofs are in CssV.CodecDetect / CssV.CodecFacts.
+   Subjects: Gen/CodecFns.v (regenerated from _codec3.py on every run) and Codec.v (hand-written model). *)
+From CssV Require Import Base CodecPyLib Gen.CodecFns Codec CodecConcrete CodecDetect CodecFacts.
+
+(* ---------------------------------------------------------------- detection (generated detectencoding_str) *)
+(* never IndexError *)
+Theorem detect_total : forall input final, exists r, detectencoding_str input final = Some r.
+Proof. exact detect_total. Qed.
+Print Assumptions detect_total.
+
+(* with final=True an encoding is always named *)
+Theorem detect_final : forall input, exists e x, detectencoding_str input true = Some (Some e, x).
+Proof. exact detect_final. Qed.
+Print Assumptions detect_final.
+
+(* a verdict on a prefix is the verdict on every continuation (what makes buffering sound) *)
+Theorem detect_monotone : forall p q fin e x,
+  detectencoding_str p false = Some (Some e, x) -> detectencoding_str (p ++ q) fin = Some (Some e, x).
+Proof. exact detect_monotone. Qed.
+Print Assumptions detect_monotone.
+
+(* priority: explicit argument (force) > BOM > @charset rule > UTF-8; each over ALL continuations *)
+Theorem detect_priority_explicit : forall e input fin, pick_encoding (Some e) true input fin = PEnc e.
+Proof. exact pick_explicit. Qed.
+Print Assumptions detect_priority_explicit.
+
+Theorem detect_priority_bom_utf8sig : forall r fin,
+  detectencoding_str (239 :: 187 :: 191 :: r)%N fin = Some (Some (s "utf-8-sig"), true).
+Proof. exact bom_utf8sig. Qed.
+Print Assumptions detect_priority_bom_utf8sig.
+
+Theorem detect_priority_bom_utf16_be : forall r fin,
+  detectencoding_str (254 :: 255 :: r)%N fin = Some (Some (s "utf-16"), true).
+Proof. exact bom_utf16_be. Qed.
+Print Assumptions detect_priority_bom_utf16_be.
+
+Theorem detect_priority_bom_utf16_le : forall b2 b3 r fin, (b2 <> 0 \/ b3 <> 0)%N ->
+  detectencoding_str (255 :: 254 :: b2 :: b3 :: r)%N fin = Some (Some (s "utf-16"), true).
+Proof. exact bom_utf16_le. Qed.
+Print Assumptions detect_priority_bom_utf16_le.
+
+(* the repaired end-of-input case: a file that is only the UTF-16 BOM *)
+Theorem detect_priority_bom_utf16_le_only : detectencoding_str [255; 254]%N true = Some (Some (s "utf-16"), true).
+Proof. exact bom_utf16_le_only. Qed.
+Print Assumptions detect_priority_bom_utf16_le_only.
+
+Theorem detect_priority_bom_utf32_le : forall r fin,
+  detectencoding_str (255 :: 254 :: 0 :: 0 :: r)%N fin = Some (Some (s "utf-32"), true).
+Proof. exact bom_utf32_le. Qed.
+Print Assumptions detect_priority_bom_utf32_le.
+
+Theorem detect_priority_bom_utf32_be : forall r fin,
+  detectencoding_str (0 :: 0 :: 254 :: 255 :: r)%N fin = Some (Some (s "utf-32"), true).
+Proof. exact bom_utf32_be. Qed.
+Print Assumptions detect_priority_bom_utf32_be.
+
+(* the rule head as it looks in UTF-16/32 without BOM: implicit (explicit=False) detection *)
+Theorem detect_priority_implicit_utf32_le : forall r fin,
+  detectencoding_str (64 :: 0 :: 0 :: 0 :: r)%N fin = Some (Some (s "utf-32-le"), false).
+Proof. exact implicit_utf32_le. Qed.
+Print Assumptions detect_priority_implicit_utf32_le.
+Theorem detect_priority_implicit_utf32_be : forall r fin,
+  detectencoding_str (0 :: 0 :: 0 :: 64 :: r)%N fin = Some (Some (s "utf-32-be"), false).
+Proof. exact implicit_utf32_be. Qed.
+Print Assumptions detect_priority_implicit_utf32_be.
+Theorem detect_priority_implicit_utf16_le : forall r fin,
+  detectencoding_str (64 :: 0 :: 99 :: 0 :: r)%N fin = Some (Some (s "utf-16-le"), false).
+Proof. exact implicit_utf16_le. Qed.
+Print Assumptions detect_priority_implicit_utf16_le.
+Theorem detect_priority_implicit_utf16_be : forall r fin,
+  detectencoding_str (0 :: 64 :: r)%N fin = Some (Some (s "utf-16-be"), false).
+Proof. exact implicit_utf16_be. Qed.
+Print Assumptions detect_priority_implicit_utf16_be.
+
+(* prefix = the ten characters of the rule head (at-charset, space, double quote); 34 = the double quote *)
+Theorem detect_priority_charset_rule : forall e rest fin, ~ In 34%N e ->
+  detectencoding_str (prefix ++ e ++ 34%N :: rest) fin = Some (Some e, true).
+Proof. exact charset_rule_detected. Qed.
+Print Assumptions detect_priority_charset_rule.
+
+Theorem detect_priority_default_utf8 : forall b0 r fin,
+  (b0 <> 239 -> b0 <> 255 -> b0 <> 254 -> b0 <> 64 -> b0 <> 0 ->
+   detectencoding_str (b0 :: r) fin = Some (Some (s "utf-8"), false))%N.
+Proof. exact default_utf8_first. Qed.
+Print Assumptions detect_priority_default_utf8.
+
+Theorem detect_priority_unterminated_rule : forall e, ~ In 34%N e ->
+  detectencoding_str (prefix ++ e) true = Some (Some (s "utf-8"), false).
+Proof. exact charset_unterminated. Qed.
+Print Assumptions detect_priority_unterminated_rule.
+
+(* ---------------------------------------------------------------- @charset rewriting (generated _fixencoding) *)
+Theorem fix_final_some : forall t e, exists r, fixencoding t e true = Some r.
+Proof. exact fix_final_some. Qed.
+Print Assumptions fix_final_some.
+
+Theorem fix_monotone : forall t u e fin r,
+  fixencoding t e false = Some r -> fixencoding (t ++ u) e fin = Some (r ++ u).
+Proof. exact fix_monotone. Qed.
+Print Assumptions fix_monotone.
+
+Theorem fix_idempotent : forall t e f r, ~ In 34%N (nosig e) ->
+  fixencoding t e f = Some r -> fixencoding r e true = Some r.
+Proof. exact fix_idem. Qed.
+Print Assumptions fix_idempotent.
+
+(* the rewritten rule names the encoding used: what _fixencoding returns, spelled out *)
+Theorem fix_only_header : forall t e f, fixencoding t e f = fix_ref t e f.
+Proof. exact fix_eq. Qed.
+Print Assumptions fix_only_header.
+
+Theorem detect_unicode_monotone : forall p q fin e x,
+  detectencoding_unicode p false = (Some e, x) -> detectencoding_unicode (p ++ q) fin = (Some e, x).
+Proof. exact detectu_monotone. Qed.
+Print Assumptions detect_unicode_monotone.
+
+(* ---------------------------------------------------------------- chunking invariance, inverse *)
+Section C14.
+  (* the underlying per-encoding codec (one fixed `errors` argument): trusted base, validated against CPython *)
+  Variable dst : Type.
+  Variable dinit : str -> option dst.
+  Variable dstep : dst -> str -> bool -> dst * res str.
+  Variable dshot : str -> str -> res str.
+  Variable est : Type.
+  Variable einit : str -> option est.
+  Variable estep : est -> str -> bool -> est * res str.
+  Variable eshot : str -> str -> res str.
+  Hypothesis dstep_concat : forall d a b fin d' o1, dstep d a false = (d', Ok o1) ->
+    dstep d (a ++ b) fin =
+    (fst (dstep d' b fin), match snd (dstep d' b fin) with Ok o2 => Ok (o1 ++ o2) | Err e => Err e end).
+  Hypothesis dstep_error : forall d a b fin d' e, dstep d a false = (d', Err e) -> snd (dstep d (a ++ b) fin) = Err e.
+  Hypothesis dshot_spec : forall e b,
+    dshot e b = match dinit e with None => Err ELookup | Some d => snd (dstep d b true) end.
+  Hypothesis estep_concat : forall d a b fin d' o1, estep d a false = (d', Ok o1) ->
+    estep d (a ++ b) fin =
+    (fst (estep d' b fin), match snd (estep d' b fin) with Ok o2 => Ok (o1 ++ o2) | Err e => Err e end).
+  Hypothesis estep_error : forall d a b fin d' e, estep d a false = (d', Err e) -> snd (estep d (a ++ b) fin) = Err e.
+  Hypothesis eshot_spec : forall e t,
+    eshot e t = match einit e with None => Err ELookup | Some d => snd (estep d t true) end.
+
+  (* for EVERY list of chunks (fed with final=False) and last chunk (final=True), every encoding / force
+     argument: the incremental decoder yields exactly the one-shot result, exceptions included *)
+  Theorem incdec_chunking : forall enc force chunks last,
+    dec_feed dst dinit dstep (dec_init dst enc force) chunks last = decode dshot (concat chunks ++ last) enc force.
+  Proof. exact (incdec_chunking_thm dst dinit dstep dshot dstep_concat dstep_error dshot_spec). Qed.
+
+  Theorem incenc_chunking : forall enc chunks last,
+    enc_feed est einit estep (enc_init est enc) chunks last = encode eshot (concat chunks ++ last) enc.
+  Proof. exact (incenc_chunking_thm est einit estep eshot estep_concat estep_error eshot_spec). Qed.
+
+  (* decoding what encode produced gives the text back, up to the rewrite of the @charset rule *)
+  Theorem decode_encode : forall e t b,
+    (forall x y, eshot e x = Ok y -> dshot e y = Ok x) -> ~ In 34%N (nosig e) ->
+    encode eshot t (Some e) = Ok b ->
+    exists r, fixencoding t e true = Some r /\ decode dshot b (Some e) true = Ok r.
+  Proof. exact (decode_encode_thm dshot eshot). Qed.
+End C14.
+Print Assumptions incdec_chunking.
+Print Assumptions incenc_chunking.
+Print Assumptions decode_encode.
+
+(* ---------------------------------------------------------------- non-vacuity *)
+(* the hypotheses hold for a concrete codec, and the theorem then speaks about a non-trivial run:
+   the header is cut inside the rule, the name is rewritten from x to latin-1 *)
+Example incdec_chunking_instance :
+  dec_feed unit id_init id_step (dec_init unit (Some (s "latin-1")) true)
+           [s "@char"; s "set ""x"; s """;a"] (s "{}")
+  = Ok (s "@charset ""latin-1"";a{}").
+Proof. rewrite (incdec_chunking unit id_init id_step id_shot id_concat id_error id_shot_spec). reflexivity. Qed.
+
+Example incenc_chunking_instance :
+  enc_feed unit id_init id_step (enc_init unit None) [s "@charset ""lat"; s "in-1"";"] (s "b")
+  = Ok (s "@charset ""latin-1"";b").
+Proof. rewrite (incenc_chunking unit id_init id_step id_shot id_concat id_error id_shot_spec). reflexivity. Qed.
+
+Example decode_encode_instance :
+  exists r, fixencoding (s "@charset ""x"";a") (s "latin-1") true = Some r /\
+            decode id_shot (s "@charset ""latin-1"";a") (Some (s "latin-1")) true = Ok r.
+Proof.
+  apply (decode_encode id_shot id_shot (s "latin-1") (s "@charset ""x"";a") (s "@charset ""latin-1"";a")).
+  - unfold id_shot. intros x y. destruct (eqs (s "latin-1") (s "latin-1")); [intros [= ->]; reflexivity|discriminate].
+  - vm_compute. intuition discriminate.
+  - reflexivity.
+Qed.
+
+Example detect_monotone_instance :
+  detectencoding_str [254; 255]%N false = Some (Some (s "utf-16"), true) /\
+  detectencoding_str [255; 254]%N false = Some (None, false).
+Proof. split; reflexivity. Qed.
+
+Example detect_priority_charset_instance :
+  detectencoding_str (s "@charset ""koi8-r"";x") false = Some (Some (s "koi8-r"), true).
+Proof. reflexivity. Qed.
